@@ -375,6 +375,59 @@ pub fn judge(text: &str, origin: &str, flags: &Flags, k: usize, rcomp: &str, bas
     }
 }
 
+/// (b2) see the comment inside.
+pub fn process_state_jobs(rcomp: &str, base: &Path, rng: &mut Rng, rep: &mut Rep) {
+    // (b2) one process, several *settings*: what a build script does. Every (grammar, option vector) must come out as in
+    // a fresh rcomp process, whatever was compiled in this process before - in particular grammars whose fate depends
+    // on a setting (a look-ahead / back-reference regex is valid under fancy_regex only).
+    {
+        let engine_texts = [
+            "S: A B;\nterminals\nA: /a(?=b)/;\nB: /b+/;\n".to_string(),
+            "S: A+;\nterminals\nA: /(x|y)\\1/;\n".to_string(),
+            "S: A B;\nterminals\nA: /a+/;\nB: /b+/;\n".to_string(),
+        ];
+        let vectors = [
+            Flags { fancy: true, ..Flags::none() },
+            Flags::none(),
+            Flags { fancy: true, glr: true, ..Flags::none() },
+            Flags { prefer_shifts: true, builder: Some(1), ..Flags::none() },
+        ];
+        // reference: fresh processes
+        let mut reference = vec![];
+        for (ti, t) in engine_texts.iter().enumerate() {
+            for (vi, v) in vectors.iter().enumerate() {
+                let d = fresh(base, &format!("engref{}_{}", ti, vi), t);
+                let _ = run_cli(rcomp, &d, v);
+                reference.push(outputs(&d));
+            }
+        }
+        // the same jobs in this process, in two orders
+        for order in 0..2 {
+            let mut jobs: Vec<(usize, usize)> = (0..engine_texts.len()).flat_map(|ti| (0..vectors.len()).map(move |vi| (ti, vi))).collect();
+            if order == 1 {
+                jobs.reverse();
+            } else {
+                rng.shuffle(&mut jobs);
+            }
+            for (ti, vi) in jobs {
+                let d = fresh(base, &format!("engapi{}_{}_{}", order, ti, vi), &engine_texts[ti]);
+                let _ = run_api(&d, &vectors[vi]);
+                rep.count("in_process_jobs_with_varying_settings", 1);
+                let o = outputs(&d);
+                let r = &reference[ti * vectors.len() + vi];
+                if &o != r {
+                    let what = match (&r.0, &o.0) {
+                        (None, Some(_)) => "a fresh rcomp process refuses the grammar, the library call in a process that had compiled other jobs wrote a parser".to_string(),
+                        (Some(_), None) => "a fresh rcomp process writes a parser, the library call in a process that had compiled other jobs refused the grammar".to_string(),
+                        _ => "the files differ".to_string(),
+                    };
+                    rep.violation("C17", &format!("process-state:{}:{}", ti, vi), &format!("`rcomp {}`: {}", vectors[vi].argv().join(" "), what), json!({"kind": "process-state", "grammar": engine_texts[ti], "argv": vectors[vi].argv(), "order": order}));
+                }
+            }
+        }
+    }
+}
+
 pub fn main(a: &Args) {
     let mut rep = Rep::new(a.out.as_deref());
     let mut rng = a.rng(17);
@@ -385,6 +438,13 @@ pub fn main(a: &Args) {
     if let Some(path) = &a.replay {
         let v: Value = serde_json::from_str(&std::fs::read_to_string(path).expect("read replay")).expect("json");
         let case = &v["case"];
+        if case["kind"].as_str() == Some("process-state") {
+            let mut rng = a.rng(17);
+            process_state_jobs(&rcomp, &base, &mut rng, &mut rep);
+            let _ = std::fs::remove_dir_all(&base);
+            rep.finish();
+            return;
+        }
         let flags = flags_from_argv(case["argv"].as_array().unwrap().iter().map(|x| x.as_str().unwrap().to_string()).collect());
         judge(case["grammar"].as_str().unwrap(), "replay", &flags, 24, &rcomp, &base, &mut rep);
         let _ = std::fs::remove_dir_all(&base);
@@ -444,6 +504,7 @@ pub fn main(a: &Args) {
             rep.violation("C17", &format!("order:{}", fnv(t)), "the same grammar compiled twice in one process (different processing order) gave different files", json!({"grammar": t, "argv": flags.argv()}));
         }
     }
+    process_state_jobs(&rcomp, &base, &mut rng, &mut rep);
     // (d) a directory processed by one rcomp call (traversal order is the file system's) vs each grammar alone.
     // Only grammars that rcomp accepts on their own are put into the directory (process_dir stops at the first
     // rejected grammar, and rcomp exits 0 either way).
